@@ -348,3 +348,43 @@ toy_eph_wrapper!(toy_int_b_encap_with_eph, toy_int_b, ToyKemIntB);
 pub fn toy_lin_enc_pk(e: &<crate::kem::ToyKemLin as crate::kem::Kem>::EncappedKey) -> u16 {
     (e.0).0
 }
+
+// ---------------------------------------------------------------------------------------------
+// ScriptHash / ScriptKdf: "the hash is an arbitrary function".  Nh = block = 66 so that one HKDF
+// block yields a whole NIST candidate scalar (32/48/66 bytes).  Never executed as a hash: the
+// harnesses that use it replace the hkdf crate by the stub layer, whose ScriptHash instantiation
+// returns harness-chosen outputs and logs the HMAC inputs (kani/hv/src/fasthkdf.rs).
+// ---------------------------------------------------------------------------------------------
+use generic_array::typenum::U66;
+
+#[derive(Clone)]
+pub struct ScriptHash {
+    pub pad: [u8; 64],
+}
+impl Default for ScriptHash {
+    fn default() -> Self {
+        ScriptHash { pad: [0u8; 64] }
+    }
+}
+impl HashMarker for ScriptHash {}
+impl OutputSizeUser for ScriptHash {
+    type OutputSize = U66;
+}
+impl BlockSizeUser for ScriptHash {
+    type BlockSize = U66;
+}
+impl Update for ScriptHash {
+    fn update(&mut self, _data: &[u8]) {}
+}
+impl FixedOutput for ScriptHash {
+    fn finalize_into(self, out: &mut Output<Self>) {
+        for b in out.iter_mut() {
+            *b = 0;
+        }
+    }
+}
+pub struct ScriptKdf;
+impl KdfTrait for ScriptKdf {
+    type HashImpl = ScriptHash;
+    const KDF_ID: u16 = 0x7401;
+}
